@@ -2,12 +2,16 @@
 """Regenerates MANIFEST.json from the table below (kept next to the checks so the two cannot drift)."""
 import json
 CLAIMED = {
+ 'C11': ('panic-freedom, decided over every ASCII string up to the bound: the real formula lexer (A1 and R1C1 mode, en locale built by hand, en language with concrete boolean/error names) always reaches EOF; the number-format lexer/parser and date-format detector; column_to_number, parse_reference_a1/r1c1, is_valid_identifier, is_valid_column, quote_name. Every overflow / index / unwrap panic path is a query',
+         'outside: the formula parser, formula completion, set_user_input, the number formatter (float to digits), non-ASCII text, strings longer than 3 (lexers) / 4 (helpers), other locales and languages'),
+ 'C30': ('style pools: any two styles from the symbolic attribute space interned one after the other read back field-for-field, the first still reads back after the second, different styles never share an index; any three number formats (built-in, custom, text) keep their own codes; two cells styled through Model::set_cell_style read back through get_style_for_cell',
+         'outside: font names/colours, borders, named styles, row/column style plumbing above the pool (the row/column records are under C29), import/export'),
  'C19': ('the recogniser parse_number on every ASCII string up to the bound against a reference scanner written from the property: accepted => number shape with separators followed by multiples of three digits; value = sign x f64 of exactly the scanned digits; grouped/scientific flags; every ordinary well-formed number is accepted. parse_formatted_number against that kernel on the stripped text for percent, the three currency positions and plain numbers: value with the right sign (incl. -$ with an exponent), /100 for percent, and a format of the stated kind',
          'outside: the numeric value of a digit string (f64::from_str: validity = its documented grammar, value uninterpreted), typed dates (chrono), white space, non-ASCII currency symbols/separators (the real fr/de group separators), what Model::set_user_input does with the result'),
  'C16': ('cut: to_string_moved on reference and range nodes with symbolic formula cell, target, cut area and paste offset - a reference to a cut cell points to where it went (same $ flags, #REF! off the grid), a range moves only if both corners are cut, everything else keeps its cell and gains the source sheet name when the formula changes sheet; ref_is_in_area = the rectangle test over the whole grid; copy: the A1 printer at the target cell shifts exactly the relative parts by the paste offset. Expected texts are built from $, number_to_column and the row number, not from the printer under test',
          'outside: the moved-formula printer for operators/functions/arrays (parenthesisation, separators), clipboard orchestration, CF ranges and defined names under cut, values; coordinates within 120 rows x 30 columns'),
  'C34': ('F4 rewrite kernel (next_state, cycle_endpoint, cycle_token_text): on every reference/range token text assembled from symbolic sheet prefix, $ markers, letters of either case and digits, one F4 equals the cycle of the property (A1->$A$1->A$1->$A1, column-only/row-only toggle, letters upper-cased, prefix byte-identical) and four F4 return the upper-cased original; next_state has period exactly four; on any ASCII text <=4 (<=6 thorough) only $ markers and letter case change',
-         'outside: cycle_reference itself (re-tokenising, which references the cursor touches, returned cursor positions) - it needs the formula lexer; non-ASCII text'),
+         'cycle_reference with the real tokenizer is decided on =<ref or range, optional sheet prefix>+<ref> with symbolic $ markers and every cursor/selection: exactly the touched references are cycled and the returned cursor follows the documented rule; outside: other formula shapes for the cursor rule, non-ASCII text'),
  'C01': ('inductive step on 19 operation kinds (set_columns_width/hidden, set_rows_height/hidden, frozen rows/columns, grid lines, sheet colour, hide/unhide/delete/new/move sheet, insert/delete rows and columns, move rows/columns): from an arbitrary cell-free workbook (<=2 sheets with a symbolic column descriptor and row record each, or <=3 sheets with symbolic visibility) `op; undo` restores every listed observable - sheet names/order/visibility/colour/ids, frozen panes, grid lines, links, and what column x / row y show (width, hidden, style) at symbolic probes',
          'outside: every operation whose diff carries cell content (input, arrays, clears, cell styles, borders, named styles, paste, autofill, defined names, conditional formats, rename/duplicate sheet, locale/timezone/name/theme) and every structural operation on a sheet that holds cells (parser, set_user_input, evaluator); selection/view state is not compared; pre-state built directly (intercepted Model::from_workbook), history built by the operation itself'),
  'C02': ('same family: `op; undo; redo` shows exactly what `op` showed; History alone: any sequence of <=5 push/undo/redo calls behaves as a cursor over the operation list (push truncates after the cursor, undo/redo return the operation they cross, stack sizes = cursor position)',
@@ -26,8 +30,8 @@ CLAIMED = {
          'outside: cell content, value types, formula text, computed values (all go through text re-entry and the parser)'),
  'C15': ('(a) single row/column move rewrites references by the move permutation (stringify_reference RowMove/ColumnMove, whole grid); (b) chain of single moves on CF coordinates = block permutation (block <=2 quick / <=3 thorough); (c) real Model::move_rows_action / move_columns_action on cell-free sheets: row records, observable column attributes (width when shown, hidden, style) and hyperlinks land at the block-permuted line (block <=3 rows / <=2 columns, |offset| <=2 quick; <=3,<=3 thorough)',
          'outside: cell content re-entry, array-formula split checks (can_move_*), ranges under moves, values; column widths are the concrete values 8/13/21/34 (exact under the x9,/9 pixel conversion the move performs)'),
- 'C22': ('column letters <-> numbers bijective: one symbolic i32 over all values, every ASCII string of length 0..=4',
-         'outside: A1/R1C1 print->parse of whole references, sheet-name quoting vs the lexer, non-ASCII'),
+ 'C22': ('column letters <-> numbers bijective (one symbolic i32 over all values; every ASCII string of length 0..=4); every valid sheet name over printable ASCII (<=2 chars quick, <=3 thorough), quoted as quote_name quotes it and followed by !A1, is read back by the real formula lexer as a reference into exactly that sheet',
+         'outside: A1/R1C1 print->parse of references and ranges through the parser (the A1 printer itself is checked against an independent text builder under C16), longer and non-ASCII names'),
  'C27': ('column descriptors stay sorted and disjoint (min<=max) and row records unique after one Model-level structural edit (insert/delete any position and count, block move) and after each Worksheet attribute setter (ids C27.* inside the C29 harnesses), from an arbitrary well-formed in-grid layout (inductive step, <=2 descriptors/records)',
          'outside: sheet names/ids, cells inside the grid, style/shared-string/formula indices, spill anchors, defined names; descriptors are not required to stay inside the grid (the property does not say so)'),
  'C29': ('frame + effect conditions of set_column_hidden/style/width, delete_column_style, set_row_hidden/style/height at a symbolic probe column/row from an arbitrary well-formed layout (<=2 descriptors / <=2 row records): exactly the targeted attribute of exactly the targeted line changes; width/height kept by hide/unhide/style',
@@ -42,7 +46,6 @@ NA = {
  'C08': 'not claimed: set_cells_with_result needs a Model value (see C01); harness not built',
  'C09': 'tree->String->tree through the recursive-descent parser and lexer with language tables; symbolic trees of useful depth degenerate to enumeration',
  'C10': 'same pipeline as C09 across five language tables loaded from bitcode data',
- 'C11': 'not claimed: string-kernel panic-freedom harnesses (DESIGN 5) not built; measured cost of symbolic strings (60 s solver timeouts on digit-string round trips) made them unaffordable in the quick tier',
  'C17': 'sheet rename/duplicate rewrite every stored formula through parser and printer',
  'C18': 'display -> set_user_input round trip runs the number formatter (float->text) and the input interpreter end to end',
  'C20': 'subject is decimal rendering of f64 (format!("{:.*e}"), ryu); float-to-decimal is not encodable and cannot be left uninterpreted because it is the property',
@@ -51,7 +54,6 @@ NA = {
  'C24': 'zip + XML writer/reader over whole workbooks; I/O-bound byte streams of unbounded length',
  'C25': 'same reader on arbitrary bytes (zip inflate, XML tokenizer in third-party crates); loops grow with input',
  'C26': 'bitcode encode/decode of the whole workbook plus re-parse of every formula on load',
- 'C30': 'not claimed: style-pool harness over Styles (deep derived PartialEq on String-bearing structs) not built',
  'C31': 'not claimed: needs Model::set_cells_with_result (see C08)',
  'C32': 'defined names are re-parsed by three different parsers on every structural change; parser-bound like C09/C17',
 }
